@@ -5014,14 +5014,12 @@ class Entity(object, metaclass=EntityMeta):
                     assert objects_to_save
                     obj2 = objects_to_save.pop()
                     assert obj2 is obj
-                    if save_pos is not None:
-                        assert objects_to_save[save_pos] is None
-                        objects_to_save[save_pos] = obj
-                    obj._save_pos_ = save_pos
-                obj._status_ = status
+                if status in ('created', 'modified'):  # give the vacated slot back
+                    assert objects_to_save[save_pos] is None
+                    objects_to_save[save_pos] = obj
+                obj._status_, obj._save_pos_ = prev  # a nested call may have changed them since `status` / `save_pos` were read
                 for cache_index, old_key in undo_list: cache_index[old_key] = obj
 
-            undo_funcs.append(undo_func)
             try:
                 for attr in obj._attrs_:
                     if not attr.is_collection: continue
@@ -5072,6 +5070,8 @@ class Entity(object, metaclass=EntityMeta):
                     assert obj2 is obj
                     undo_list.append((cache_index, vals))
 
+                prev = obj._status_, obj._save_pos_
+                undo_funcs.append(undo_func)  # registered with the queue change it undoes, so that closures and queue pops stay in LIFO order
                 if status == 'created':
                     assert save_pos is not None
                     objects_to_save[save_pos] = None
